@@ -60,3 +60,27 @@ def _v7(repo, mod):
 def _v8(repo, mod):
     fn = repo.func(RP, "_get_line_annotations_for_branch_coverage")
     return insert_before(mod, fn.body[-1], "_unused = lineno")
+
+
+COMP = "pynguin.ga.computations"
+
+
+@variant("C35", "xml-hits-overwritten-by-branch-part", RP, "C35.xml", "the branch part overwrites the hit taken from line coverage")
+def _v30(repo, mod):
+    fn = repo.func(RP, "render_xml_coverage_report")
+    s = find_stmt(fn, lambda s: isinstance(s, ast.If) and norm(s.test) == "covered > 0")
+    return replace_node(mod, s, 'attrib["hits"] = "1" if covered > 0 else "0"')
+
+
+@variant("C35", "xml-lists-irrelevant-lines", RP, "C35.xml", "lines that carry nothing are listed")
+def _v31(repo, mod):
+    fn = repo.func(RP, "render_xml_coverage_report")
+    s = find_stmt(fn, lambda s: isinstance(s, ast.If) and "total.existing == 0" in norm(s.test))
+    return delete_stmt(mod, s)
+
+
+@variant("C35", "stored-result-keeps-changed-flag", COMP, "C35.same-executions", "the suite runner stores the result and leaves the test case changed")
+def _v32(repo, mod):
+    fn = repo.func(COMP, "TestSuiteChromosomeComputation._run_test_suite_chromosome")
+    s = find_stmt(fn, lambda s: isinstance(s, ast.Assign) and norm(s) == "test_case_chromosome.changed = False")
+    return delete_stmt(mod, s)
